@@ -681,10 +681,14 @@ class Runner(object):
         the keymap merged them - and if the un-stringified flat key is a bare scalar under
         stringmap(encoding=None) it is the known str(1)==str('1') collision."""
         try:
+            cands = []
             for op in self.case['ops'][: self.step_i]:
-                if op[0] != 'call':
-                    continue
-                a, kw = dec(op[1]), dec(op[2])
+                if op[0] == 'call':
+                    cands.append((op[1], op[2]))
+                elif op[0] in ('overfill', 'archfill'):   # entries inserted with the function's own values
+                    cands.extend((c[0], c[1]) for c in op[1])
+            for ea, ekw in cands:
+                a, kw = dec(ea), dec(ekw)
                 if not (self.probe.raw(*a, **kw) == result):
                     continue
                 ok, kb = self.keyof(a, kw)
